@@ -1,10 +1,177 @@
-/- Line-protocol handlers for C10 (placeholder until the property is built). -/
-import PandoraModel.Model.Basic
+/- Line-protocol handlers for the filters (C10): model evaluation and specification evaluation. -/
+import PandoraModel.Model.Filter
 
 namespace Pandora.Driver.C10
 open Lean (Json)
+open Pandora Pandora.Filter
 
-def handle (op : String) (_j : Json) : Except String Json :=
-  throw s!"unknown op {op}"
+def splitOfJson (j : Json) : Except String Blocks.Split := do
+  let g (k : String) : Except String Nat := field j k >>= natOfJson
+  return { startY := ← g "startY", stepY := ← g "stepY", stopYDim := ← g "stopYDim",
+           startX := ← g "startX", stepX := ← g "stepX", stopXDim := ← g "stopXDim",
+           beginY := ← g "beginY", beginX := ← g "beginX" }
+
+def imgOfJson (j : Json) (ny nx : Nat) (what : String) : Except String Img := do
+  let g ← listOfJson (listOfJson valOfJson) j
+  let a : Array (Array Val) := (g.map (·.toArray)).toArray
+  if a.size != ny || a.any (·.size != nx) then throw s!"{what}: wrong shape"
+  return fun r c => (a.getD r #[]).getD c .nan
+
+def natGridOfJson (j : Json) (ny nx : Nat) (what : String) : Except String (Nat → Nat → Nat) := do
+  let g ← listOfJson (listOfJson natOfJson) j
+  let a : Array (Array Nat) := (g.map (·.toArray)).toArray
+  if a.size != ny || a.any (·.size != nx) then throw s!"{what}: wrong shape"
+  return fun r c => (a.getD r #[]).getD c 0
+
+def boolGridOfJson (j : Json) (ny nx : Nat) (what : String) : Except String (Nat → Nat → Bool) := do
+  let g ← listOfJson (listOfJson boolOfJson) j
+  let a : Array (Array Bool) := (g.map (·.toArray)).toArray
+  if a.size != ny || a.any (·.size != nx) then throw s!"{what}: wrong shape"
+  return fun r c => (a.getD r #[]).getD c false
+
+def imgToJson (ny nx : Nat) (g : Img) : Json := gridToJson valToJson (Blocks.tabulate ny nx g)
+
+def dims (j : Json) : Except String (Nat × Nat) := do
+  return (← field j "ny" >>= natOfJson, ← field j "nx" >>= natOfJson)
+
+/-- the two Gaussian factors: `spatial` a w×w grid, `range` a table [[difference, weight], …] -/
+def weightsOfJson (j : Json) : Except String Weights := do
+  let sp ← field j "spatial" >>= listOfJson (listOfJson ratOfJson)
+  let spA : Array (Array Rat) := (sp.map (·.toArray)).toArray
+  let tbl ← field j "range" >>= listOfJson (fun row => do
+    match row with
+    | Json.arr #[d, w] => pure ((← ratOfJson d), (← ratOfJson w))
+    | _ => throw "bad range row")
+  let tblA := tbl.toArray
+  return { spatial := fun a b => (spA.getD a #[]).getD b 0,
+           range := fun d => match tblA.find? (fun p => p.1 == d) with
+             | some p => p.2
+             | none => 0 }
+
+def median (j : Json) : Except String Json := do
+  let (ny, nx) ← dims j
+  let fs ← field j "fs" >>= natOfJson
+  let im ← field j "invalid_mask" >>= natOfJson
+  let s ← field j "split" >>= splitOfJson
+  let disp ← field j "disp" >>= (imgOfJson · ny nx "disp")
+  let flags ← field j "flags" >>= (natGridOfJson · ny nx "flags")
+  return mkObj [("disp", imgToJson ny nx (medianFilterDisparity s im fs ny nx flags disp))]
+
+def medianBand (j : Json) : Except String Json := do
+  let (ny, nx) ← dims j
+  let fs ← field j "fs" >>= natOfJson
+  let s ← field j "split" >>= splitOfJson
+  let band ← field j "band" >>= (imgOfJson · ny nx "band")
+  return mkObj [("band", imgToJson ny nx (medianFilter s fs ny nx band))]
+
+def bilateral (j : Json) : Except String Json := do
+  let (ny, nx) ← dims j
+  let sigma ← field j "sigma_space" >>= ratOfJson
+  let im ← field j "invalid_mask" >>= natOfJson
+  let s ← field j "split" >>= splitOfJson
+  let wts ← weightsOfJson j
+  let disp ← field j "disp" >>= (imgOfJson · ny nx "disp")
+  let flags ← field j "flags" >>= (natGridOfJson · ny nx "flags")
+  let w := winWidth ny nx sigma
+  return mkObj [("win", natToJson w),
+                ("disp", imgToJson ny nx (bilateralFilterDisparity s wts im w ny nx flags disp))]
+
+def winOp (j : Json) : Except String Json := do
+  let (ny, nx) ← dims j
+  let sigma ← field j "sigma_space" >>= ratOfJson
+  return natToJson (winWidth ny nx sigma)
+
+def collect (ny nx : Nat) (f : Nat → Nat → List String) (info : Nat → Nat → List (String × Json)) : Json := Id.run do
+  let mut fails : Array Json := #[]
+  let mut nfail := 0
+  for r in [0:ny] do
+    for c in [0:nx] do
+      let fc := f r c
+      if !fc.isEmpty then
+        nfail := nfail + 1
+        if fails.size < 10 then
+          fails := fails.push (mkObj ([("r", natToJson r), ("c", natToJson c),
+            ("clauses", listToJson Json.str fc)] ++ info r c))
+  return mkObj [("ok", Json.bool (nfail == 0)), ("nfail", natToJson nfail), ("failures", Json.arr fails)]
+
+/-- counts for the evidence: invalid cells, valid edge cells, valid interior cells, interior cells whose
+    window holds an invalid cell, interior cells with an even number of valid values -/
+def stats (data : Img) (before after ny nx : Nat) : Json := Id.run do
+  let mut inv := 0; let mut edge := 0; let mut inner := 0; let mut partialW := 0; let mut evenW := 0
+  for r in [0:ny] do
+    for c in [0:nx] do
+      if (data r c).isNan then inv := inv + 1
+      else if !interior before after ny nx r c then edge := edge + 1
+      else
+        inner := inner + 1
+        let w := centredWindow data before after r c
+        let k := (nums w).length
+        if k < w.length then partialW := partialW + 1
+        if k % 2 == 0 then evenW := evenW + 1
+  return mkObj [("invalid", natToJson inv), ("edge", natToJson edge), ("interior", natToJson inner),
+                ("window_with_invalid", natToJson partialW), ("even_count", natToJson evenW)]
+
+/-- median specification on an output map; `kind = "disp"` (data = NaN-masked disparity, orig = disparity)
+    or `kind = "band"` (data = orig = band) -/
+def specMedian (j : Json) : Except String Json := do
+  let (ny, nx) ← dims j
+  let fs ← field j "fs" >>= natOfJson
+  let kind ← field j "kind" >>= strOfJson
+  let orig ← field j "orig" >>= (imgOfJson · ny nx "orig")
+  let out ← field j "out" >>= (imgOfJson · ny nx "out")
+  let data ← if kind == "band" then pure orig else do
+    let im ← field j "invalid_mask" >>= natOfJson
+    let flags ← field j "flags" >>= (natGridOfJson · ny nx "flags")
+    pure (masked im flags orig)
+  let res := collect ny nx (fun r c => medianCellFailures data fs ny nx r c (orig r c) (out r c))
+    (fun r c => [("out", valToJson (out r c)), ("orig", valToJson (orig r c)),
+                 ("window", listToJson valToJson (centredWindow data (fs / 2) (fs / 2) r c)),
+                 ("expected_median", valToJson (nanmedian (centredWindow data (fs / 2) (fs / 2) r c)))])
+  return res.mergeObj (mkObj [("stats", stats data (fs / 2) (fs / 2) ny nx)])
+
+def specBilateral (j : Json) : Except String Json := do
+  let (ny, nx) ← dims j
+  let sigma ← field j "sigma_space" >>= ratOfJson
+  let tol ← field j "tol" >>= ratOfJson
+  let im ← field j "invalid_mask" >>= natOfJson
+  let wts ← weightsOfJson j
+  let orig ← field j "orig" >>= (imgOfJson · ny nx "orig")
+  let out ← field j "out" >>= (imgOfJson · ny nx "out")
+  let flags ← field j "flags" >>= (natGridOfJson · ny nx "flags")
+  let data := masked im flags orig
+  let w := winWidth ny nx sigma
+  let res := collect ny nx (fun r c => bilateralCellFailures wts tol data w ny nx r c (orig r c) (out r c))
+    (fun r c => [("out", valToJson (out r c)), ("orig", valToJson (orig r c)),
+                 ("window", listToJson valToJson (centredWindow data (w / 2) (w - 1 - w / 2) r c))])
+  return res.mergeObj (mkObj [("win", natToJson w), ("stats", stats data (w / 2) (w - 1 - w / 2) ny nx)])
+
+def flagsOp (j : Json) : Except String Json := do
+  let (ny, nx) ← dims j
+  let bit ← field j "bit" >>= natOfJson
+  let flags ← field j "flags" >>= (natGridOfJson · ny nx "flags")
+  let reg ← field j "reg" >>= (boolGridOfJson · ny nx "reg")
+  return mkObj [("flags", gridToJson natToJson (Blocks.tabulate ny nx (regularizeFlags bit reg flags)))]
+
+def specFlags (j : Json) : Except String Json := do
+  let (ny, nx) ← dims j
+  let bit ← field j "bit" >>= natOfJson
+  let allowed ← field j "bit11_allowed" >>= boolOfJson
+  let flags ← field j "flags" >>= (natGridOfJson · ny nx "flags")
+  let out ← field j "out" >>= (natGridOfJson · ny nx "out")
+  return collect ny nx (fun r c => if flagSpec bit (flags r c) (out r c) allowed then []
+      else [if allowed then "bit11_only" else "mask_unchanged"])
+    (fun r c => [("flag", natToJson (flags r c)), ("out", natToJson (out r c))])
+
+def handle (op : String) (j : Json) : Except String Json :=
+  match op with
+  | "C10.median" => median j
+  | "C10.median_band" => medianBand j
+  | "C10.bilateral" => bilateral j
+  | "C10.win" => winOp j
+  | "C10.spec_median" => specMedian j
+  | "C10.spec_bilateral" => specBilateral j
+  | "C10.flags" => flagsOp j
+  | "C10.spec_flags" => specFlags j
+  | _ => throw s!"unknown op {op}"
 
 end Pandora.Driver.C10
